@@ -40,6 +40,7 @@ const (
 	tListG // slice of group elements
 	tTr    // Fiat-Shamir transcript
 	tBytes // a label
+	tListInt
 )
 
 func (t lty) lean() string {
@@ -62,6 +63,8 @@ func (t lty) lean() string {
 		return "Tr"
 	case tBytes:
 		return "Bytes"
+	case tListInt:
+		return "List Int"
 	}
 	return "?"
 }
@@ -70,7 +73,7 @@ func (t lty) zero() string {
 	switch t {
 	case tK, tG:
 		return "0"
-	case tListK, tListBool, tListG:
+	case tListK, tListBool, tListG, tListInt:
 		return "[]"
 	case tInt:
 		return "0"
@@ -98,6 +101,8 @@ var structFields = map[string][][2]string{
 	"*IPAConfig": {{"Q", "G"}, {"SRS", "ListG"}, {"numRounds", "Int"}},
 	"IPAProof":   {{"L", "ListG"}, {"R", "ListG"}, {"A_scalar", "K"}},
 	"*IPAProof":  {{"L", "ListG"}, {"R", "ListG"}, {"A_scalar", "K"}},
+	"*ipa.IPAConfig": {{"Q", "G"}, {"SRS", "ListG"}, {"numRounds", "Int"}},
+	"*MultiProof": {{"IPAL", "ListG"}, {"IPAR", "ListG"}, {"IPAA_scalar", "K"}, {"D", "G"}},
 }
 
 func fieldTy(s string) lty {
@@ -117,6 +122,7 @@ type loopTr struct {
 	labels map[string]bool
 	tmpN   int
 	optLoop int // nesting depth of loops that can be left by an error return
+	labelPrefix string
 }
 
 func goType(e ast.Expr) (lty, bool) {
@@ -133,8 +139,12 @@ func goType(e ast.Expr) (lty, bool) {
 		return tBool, true
 	case "banderwagon.Element":
 		return tG, true
-	case "[]banderwagon.Element":
+	case "[]banderwagon.Element", "[]*banderwagon.Element":
 		return tListG, true
+	case "[]*fr.Element":
+		return tListK, true
+	case "[]uint8":
+		return tListInt, true
 	case "*common.Transcript":
 		return tTr, true
 	}
@@ -161,7 +171,7 @@ func (t *loopTr) typeOf(e ast.Expr) lty {
 		if x.Name == "true" || x.Name == "false" {
 			return tBool
 		}
-		if t.labels[x.Name] {
+		if t.labels[t.labelPrefix+x.Name] {
 			return tBytes
 		}
 		if _, ok := t.consts[x.Name]; ok {
@@ -179,6 +189,9 @@ func (t *loopTr) typeOf(e ast.Expr) lty {
 		if ty, ok := t.vars[strings.ReplaceAll(s, ".", "")]; ok {
 			return ty
 		}
+		if _, ok := t.consts[x.Sel.Name]; ok {
+			return tInt
+		}
 		die("loops: %s: unknown selector %s", t.cur.name, s)
 	case *ast.CompositeLit:
 		if ty, ok := goType(x.Type); ok {
@@ -193,6 +206,8 @@ func (t *loopTr) typeOf(e ast.Expr) lty {
 			return tBool
 		case tListG:
 			return tG
+		case tListInt:
+			return tInt
 		}
 		die("loops: %s: index into non-slice %s", t.cur.name, exprStr(x))
 	case *ast.SliceExpr:
@@ -251,6 +266,13 @@ func (t *loopTr) intExpr(e ast.Expr) string {
 		n := strings.ReplaceAll(exprStr(x), ".", "")
 		if t.vars[n] == tInt {
 			return n
+		}
+		if v, ok := t.consts[x.Sel.Name]; ok {
+			return "(" + v + " : Int)"
+		}
+	case *ast.IndexExpr:
+		if t.typeOf(x.X) == tListInt {
+			return "(Loop.get " + t.valExpr(x.X) + " " + t.intExpr(x.Index) + " 0)"
 		}
 	case *ast.UnaryExpr:
 		if x.Op == token.SUB {
@@ -402,8 +424,8 @@ func (t *loopTr) valExpr(e ast.Expr) string {
 		if x.Name == "true" || x.Name == "false" {
 			return x.Name
 		}
-		if t.labels[x.Name] {
-			return x.Name
+		if t.labels[t.labelPrefix+x.Name] {
+			return t.labelPrefix + x.Name
 		}
 		if ty, ok := t.vars[x.Name]; ok {
 			if ty == tInt {
@@ -445,6 +467,9 @@ func (t *loopTr) valExpr(e ast.Expr) string {
 		}
 		return "([" + strings.Join(els, ", ") + "] : " + ty.lean() + ")"
 	case *ast.IndexExpr:
+		if t.typeOf(x.X) == tListInt {
+			return t.intExpr(e)
+		}
 		base := t.valExpr(x.X)
 		return "(Loop.get " + base + " " + t.intExpr(x.Index) + " " + t.typeOf(e).zero() + ")"
 	case *ast.SliceExpr:
@@ -691,16 +716,18 @@ func (t *loopTr) block(ind string, stmts []ast.Stmt, k string, cont string) {
 				fnName := exprStr(c.Fun)
 				var call string
 				var rtys []lty
-				if fnName == "MultiScalar" {
+				withTr := false
+				if fnName == "MultiScalar" || fnName == "ipa.MultiScalar" {
 					call = "(multiScalar " + t.valExpr(c.Args[0]) + " " + t.valExpr(c.Args[1]) + ")"
 					rtys = []lty{tG}
 				} else {
 					f := t.lookupFn(fnName)
-					if f == nil || !f.option || f.hasTr {
+					if f == nil || !f.option {
 						die("loops: %s: unsupported error-returning call %s", t.cur.name, fnName)
 					}
 					call = t.callExpr(c)
 					rtys = f.results
+					withTr = f.hasTr
 				}
 				if len(rtys) != len(x.Lhs)-1 {
 					die("loops: %s: arity of %s", t.cur.name, fnName)
@@ -727,7 +754,11 @@ func (t *loopTr) block(ind string, stmts []ast.Stmt, k string, cont string) {
 					t.vars[id.Name] = rtys[j]
 					names = append(names, id.Name)
 				}
-				fmt.Fprintf(t.sb, "%smatch %s with\n%s| none => none\n%s| some %s =>\n", ind, call, ind, ind, tuple(names))
+				pat := tuple(names)
+				if withTr {
+					pat = "(" + pat + ", transcript)"
+				}
+				fmt.Fprintf(t.sb, "%smatch %s with\n%s| none => none\n%s| some %s =>\n", ind, call, ind, ind, pat)
 				t.block(ind+"  ", rest[1:], k, cont)
 				return
 			}
@@ -957,7 +988,7 @@ func (t *loopTr) returnValue(r *ast.ReturnStmt) string {
 	res := r.Results
 	// `return MultiScalar(a, b)`: the callee's (value, error) pair is passed on
 	if t.cur.option && !t.cur.hasTr && len(res) == 1 {
-		if c, ok := res[0].(*ast.CallExpr); ok && exprStr(c.Fun) == "MultiScalar" {
+		if c, ok := res[0].(*ast.CallExpr); ok && (exprStr(c.Fun) == "MultiScalar" || exprStr(c.Fun) == "ipa.MultiScalar") {
 			return "(multiScalar " + t.valExpr(c.Args[0]) + " " + t.valExpr(c.Args[1]) + ")"
 		}
 	}
@@ -1089,6 +1120,11 @@ func (t *loopTr) forLoop(ind string, f *ast.ForStmt, rest []ast.Stmt, k string, 
 	return true
 }
 
+var leanReserved = map[string]bool{"in": true, "at": true, "from": true, "fun": true, "do": true, "then": true, "end": true,
+	"open": true, "let": true, "have": true, "show": true, "with": true, "match": true, "where": true, "at_": false,
+	"by": true, "calc": true, "section": true, "namespace": true, "variable": true, "def": true, "theorem": true,
+	"instance": true, "structure": true, "class": true, "deriving": true, "mutual": true, "private": true, "protected": true}
+
 // translate one function or method
 func (t *loopTr) fn(file *ast.File, goName string, leanName string, proto bool) {
 	var fd *ast.FuncDecl
@@ -1100,6 +1136,13 @@ func (t *loopTr) fn(file *ast.File, goName string, leanName string, proto bool) 
 	if fd == nil {
 		die("loops: function %s not found", goName)
 	}
+	// Go identifiers that are Lean keywords get a trailing underscore
+	ast.Inspect(fd, func(n ast.Node) bool {
+		if id, ok := n.(*ast.Ident); ok && leanReserved[id.Name] {
+			id.Name += "_"
+		}
+		return true
+	})
 	f := &loopFn{name: leanName}
 	t.vars = map[string]lty{}
 	if fd.Recv != nil && len(fd.Recv.List) == 1 && len(fd.Recv.List[0].Names) == 1 {
@@ -1264,6 +1307,30 @@ func translateLoops(repo string, write func(name, imports, content string)) {
 	t.fn(prover, "CreateIPAProof", "createIPAProof", true)
 	t.fn(verifier, "CheckIPAProof", "checkIPAProof", true)
 	t.sb.WriteString("end\n\n")
+
+	// ---- the multiproof verifier
+	mp := parse(filepath.Join(repo, "multiproof.go"))
+	t.sb.WriteString("/-! the Fiat–Shamir labels of `multiproof.go` -/\n")
+	for _, l := range []string{"labelC", "labelZ", "labelY", "labelD", "labelE", "labelT", "labelR", "labelDomainSep"} {
+		v := topLevelValue(mp, l)
+		c, ok := v.(*ast.CallExpr)
+		if !ok || exprStr(c.Fun) != "[]byte" || len(c.Args) != 1 {
+			die("loops: multiproof label %s is not a []byte(\"...\") conversion", l)
+		}
+		lit, ok := c.Args[0].(*ast.BasicLit)
+		if !ok || lit.Kind != token.STRING {
+			die("loops: multiproof label %s is not a string literal", l)
+		}
+		t.sb.WriteString("def mp_" + l + " : Bytes := str " + lit.Value + "\n")
+		t.labels["mp_"+l] = true
+	}
+	t.labelPrefix = "mp_"
+	t.consts["VectorLength"] = lit.Value
+	t.sb.WriteString("\nsection\nvariable {K G : Type} [Zero K] [One K] [Add K] [Sub K] [Mul K] [Neg K] [Inv K] [NatCast K] [DecidableEq K]\nvariable [Zero G] [Add G] [Sub G] [SMul K G]\n\n")
+	t.fn(mp, "domainToFr", "domainToFr", false)
+	t.fn(mp, "CheckMultiProof", "checkMultiProof", true)
+	t.sb.WriteString("end\n\n")
+	t.labelPrefix = ""
 	// names, sorted, for the tie file to check that nothing was dropped
 	var names []string
 	for k := range t.fns {
